@@ -203,8 +203,23 @@ func build(rep string, n int, es [][2]int) graph.Graph {
 		}
 		return graph.InducedSubgraph(h, V)
 	}
+	if isProv(rep) {
+		// provenance layer (prov.go): the same abstract graph reached in another way; if the
+		// library did not deliver it (guard), the operation under test gets the plain value
+		if g, ok := buildProv(rep, n, es); ok {
+			return g
+		}
+		provFallback = true
+		if rep[0] == 's' {
+			return build("s", n, es)
+		}
+		return build("d", n, es)
+	}
 	panic("bad representation " + rep)
 }
+
+// set by build when a provenance could not be produced (reported as a bucket)
+var provFallback bool
 
 // ---------------------------------------------------------------- execution of one case
 
@@ -215,6 +230,7 @@ func exec(line string) hx.Result {
 	c := parse(line)
 	var dumps []dump
 	wfonly := false
+	provFallback = false
 	see := func(g graph.Graph) { dumps = append(dumps, observe(g)) }
 	switch c.kind {
 	case "complete":
@@ -319,6 +335,8 @@ func exec(line string) hx.Result {
 		see(g)
 		graph.SplitEdge(g, c.arg(4), c.arg(5))
 		see(g)
+	case "big":
+		return execBig(c)
 	case "viewedit":
 		// views are live: built once over an editable base, then observed (with the base) before
 		// and after every edit of the base.  Tokens with ':' are edits, the others edges.
@@ -402,6 +420,12 @@ func exec(line string) hx.Result {
 		panic("unknown kind " + c.kind)
 	}
 	res := hx.Result{Buckets: []string{"kind:" + c.kind}}
+	if provFallback {
+		res.Buckets = append(res.Buckets, "prov-fallback")
+	}
+	if len(c.args) > 0 && isProv(c.args[0]) {
+		res.Buckets = append(res.Buckets, "prov:"+c.args[0])
+	}
 	strs := make([]string, len(dumps))
 	for i, d := range dumps {
 		strs[i] = d.String()
@@ -793,6 +817,144 @@ func gen(g *hx.Gen) {
 		trans(n, randomEdges(r, n), false)
 	}
 
+	// ---- provenance of the input graph (prov.go): every transformation / view / constructor that
+	// takes a graph is run on the same abstract graph reached in many ways -- Copy(), deep
+	// InducedSubgraph copies, edit histories (stale capacity, shared backing arrays), decoder and
+	// ComplementDense results, NewDense with weights, NewSparse with unsorted lists, views, a
+	// foreign implementation -- and must give the result of the plain graph (the model).
+	provTrans := func(n int, es [][2]int, allPairs bool) {
+		e := edgeToks(es)
+		reps := append(append([]string{}, provEditable...), provViews...)
+		for _, rep := range reps {
+			switch r.Intn(3) {
+			case 0:
+				emit("compdense %s %d;%s", rep, n, e)
+			case 1:
+				emit("compview %s %d;%s", rep, n, e)
+			case 2:
+				emit("line %s %d;%s", rep, n, e)
+			}
+			emit("indview %s %d %s;%s", rep, n, commaList(r.Perm(n)[:r.Intn(n+1)]), e)
+		}
+		for _, rep := range provEditable {
+			if allPairs {
+				for i := 0; i < n; i++ {
+					for j := 0; j < n; j++ {
+						if i != j {
+							emit("split %s %d %d %d;%s", rep, n, i, j, e)
+						}
+						emit("contract %s %d %d %d;%s", rep, n, i, j, e)
+					}
+				}
+			} else if n >= 2 {
+				i := r.Intn(n)
+				j := (i + 1 + r.Intn(n-1)) % n
+				emit("split %s %d %d %d;%s", rep, n, i, j, e)
+				emit("contract %s %d %d %d;%s", rep, n, i, j, e)
+			}
+			if n >= 3 {
+				k := r.Intn(n - 1)
+				emit("consplit %s %d %d %d %d %d;%s", rep, n, r.Intn(n), r.Intn(n), k, (k+1+r.Intn(n-2))%(n-1), e)
+			}
+		}
+	}
+	pn := g.Pick(4, 5)
+	for n := 0; n <= pn; n++ {
+		for mask := 0; mask < 1<<uint(tri(n)); mask++ {
+			// all pairs on every graph with n <= 4 (quick: n = 4 on every third graph), one pair above
+			provTrans(n, graphOfMask(n, mask), n <= 3 || (n == 4 && (mask%g.Pick(3, 1) == 0)))
+		}
+	}
+	g.Exhaustive(fmt.Sprintf("transformations and views on every labelled graph with n<=%d in %d provenances (SplitEdge/Contract: all vertex pairs for n<=3 and on a third of / all graphs with n=4)", pn, len(provEditable)+len(provViews)))
+	for k := 0; k < g.Pick(60, 1500); k++ {
+		n := r.Range(3, 10)
+		provTrans(n, randomEdges(r, n), false)
+	}
+
+	// ---- named families at sizes around 32 / 64 / 128 / 256 / 1000 (kind big, see big.go)
+	bigAll := func(f string, a ...interface{}) { emit("big all "+f+";", a...) }
+	bigSampleN := func(rows, pairs, N int, f string, a ...interface{}) {
+		var tk []string
+		seen := map[int]bool{}
+		for _, v := range []int{N - 1, 64, 0, N / 2, 65, 63, 1, 31, 32, 127, 128, N/2 - 1, N - 2, r.Intn(N), r.Intn(N)} {
+			if v >= 0 && v < N && !seen[v] && len(seen) < rows {
+				seen[v] = true
+				tk = append(tk, fmt.Sprintf("r%d", v))
+			}
+		}
+		for t := 0; t < pairs; t++ {
+			a, b := r.Intn(N), r.Intn(N)
+			if t%3 == 0 { // near the diagonal and across word boundaries
+				b = (a + []int{1, 2, 31, 32, 33, 63, 64, 65}[r.Intn(8)]) % N
+			}
+			tk = append(tk, fmt.Sprintf("%d-%d", a, b))
+		}
+		emit("big sample "+f+";"+strings.Join(tk, " "), a...)
+	}
+	bigSample := func(N int, f string, a ...interface{}) { bigSampleN(15, 1500, N, f, a...) }
+	pickInts := func(q, t []int) []int {
+		if g.Thorough() {
+			return t
+		}
+		return q
+	}
+	words := []int{31, 32, 33, 63, 64, 65, 66}
+	for _, n := range append(words, 129) {
+		bigAll("kneser %d 1", n)
+		emit("big oracle bikneser %d 1;", n)
+	}
+	for _, n := range pickInts([]int{32, 33, 64, 65}, words) {
+		bigAll("kneser %d 2", n)
+	}
+	for _, n := range pickInts([]int{33}, []int{31, 32, 33, 64, 65}) {
+		emit("big oracle bikneser %d 2;", n)
+	}
+	for _, n := range []int{63, 64, 65, 127, 128, 129, 255, 256, 257} {
+		bigAll("complete %d", n)
+		bigAll("path %d", n)
+		bigAll("cycle %d", n)
+		bigAll("star %d", n)
+		bigAll("circulant %d %s", n, commaList([]int{1, -r.Range(2, n), r.Range(n/2, 2*n), 64}))
+	}
+	for _, n := range []int{1000, 1025} {
+		bigSample(n, "path %d", n)
+		bigSample(n, "cycle %d", n)
+		bigSample(n, "star %d", n)
+		bigSample(n, "complete %d", n)
+		bigSample(n, "circulant %d %s", n, commaList([]int{-1, 64, r.Range(2, n)}))
+	}
+	for _, ps := range [][]int{{64, 1}, {1, 64}, {63, 2, 64}, {32, 0, 33}, {128, 128}, {1, 1, 1, 62, 1}} {
+		bigAll("partite %s", commaList(ps))
+	}
+	for d := 6; d <= 8; d++ {
+		bigAll("hypercube %d", d)
+		bigAll("folded %d", d+1)
+	}
+	for _, d := range pickInts([]int{11}, []int{9, 10, 11, 12}) {
+		// Nat.lxor on unary numbers is slow in the extracted model: few rows and pairs
+		bigSampleN(g.Pick(3, 8), g.Pick(300, 1500), 1<<uint(d), "hypercube %d", d)
+		bigSampleN(g.Pick(3, 8), g.Pick(300, 1500), 1<<uint(d-1), "folded %d", d)
+	}
+	for _, n := range []int{31, 32, 63, 64, 127, 128} {
+		bigAll("friendship %d", n)
+	}
+	bigSample(1001, "friendship %d", 500)
+	for _, n := range []int{15, 17, 31, 33, 63, 65} {
+		bigAll("flower %d", n)
+	}
+	for _, n := range []int{32, 33, 64, 65, 128} {
+		for _, k := range []int{1, 2, (n - 1) / 2} {
+			bigAll("petersen %d %d", n, k)
+		}
+	}
+	bigSample(1000, "petersen %d %d", 500, 249)
+	for _, nm := range [][2]int{{8, 8}, {8, 9}, {5, 13}, {13, 5}, {1, 65}, {64, 2}, {16, 16}} {
+		bigAll("rook %d %d", nm[0], nm[1])
+	}
+	for _, nm := range [][2]int{{32, 33}, {64, 65}, {65, 64}, {128, 3}} {
+		bigAll("circbip %d %d %s", nm[0], nm[1], commaList([]int{0, -1, r.Range(2, 200), 64}))
+	}
+
 	// ---- views over an edited base: Complement / InducedSubgraph views (and the two nestings) of
 	// a dense or sparse base are built once and observed, together with the base, before and after
 	// every edit of the base.  Documented domain of the induced view: "If a vertex in V is no
@@ -868,6 +1030,9 @@ func gen(g *hx.Gen) {
 	for k := 0; k < g.Pick(250, 6000); k++ {
 		n := r.Range(1, 7)
 		viewedit(reps[k%2], n, randomEdges(r, n), r.Range(1, 6))
+		if k%2 == 0 { // the base itself reached by Copy / InducedSubgraph copy / edit history / decoder ...
+			viewedit(provEditable[r.Intn(len(provEditable))], n, randomEdges(r, n), r.Range(1, 6))
+		}
 	}
 
 	// ---- decoders: only well-formedness of the result is this property's business
@@ -940,7 +1105,7 @@ func main() {
 		Rule:        "case = one call of a constructor / family / transformation / view / decoder with arguments in its accepted domain; non-trivial = the returned graph has at least 2 vertices and at least one edge; distinct by case text",
 		Gen:         gen,
 		Exec:        exec,
-		CaseTimeout: 4 * time.Second,
+		CaseTimeout: 40 * time.Second, // big families: KneserGraph(66,2) takes 2 s, BipartiteKneserGraph(65,2) about 10 s
 		MemMB:       2048,
 	})
 }
